@@ -457,6 +457,29 @@ theorem bridge_getitem (K : SeekK) (F : FileV) (ts : Nat → Option Int) (since 
           · simp only [hs, false_and, if_false]
             by_cases hc : d ≥ since <;> simp [hc, hlen, hd]
 
+
+/-! ### `SearchConstraintsManager.apply_single` (C07) -/
+
+theorem apply_single_loop (outs : List COut) : ∀ (l : List COut) (a b : Bool),
+    apply_single.loop1 outs a b l = .ret (applySingleGo l a b) := by
+  intro l
+  induction l with
+  | nil => intro a b; simp [apply_single.loop1, applySingleGo]
+  | cons c r ih =>
+    intro a b
+    cases c <;> simp [apply_single.loop1, applySingleGo, ih]
+
+/-- `apply_single` as written (what each constraint says about the line = the oracle list, a
+    constraint that cannot be applied = `CouldNotApplyConstraint` raised and caught) =
+    `Sk.applySingle`: the (line_is_valid, all_constraints_passed) pair that gates a search
+    with its own constraints - including the behaviour recorded as known finding D10. -/
+theorem bridge_apply_single (outs : List COut) :
+    apply_single outs = .ret (applySingle outs) := by
+  unfold apply_single applySingle
+  cases outs with
+  | nil => simp
+  | cons c r => simp [apply_single_loop]
+
 #print axioms bridge_num_parallel_tasks
 #print axioms bridge_since_window
 #print axioms bridge_find_token
@@ -468,3 +491,4 @@ theorem bridge_getitem (K : SeekK) (F : FileV) (ts : Nat → Option Int) (since 
 #print axioms Sk.Gen.bridge_getitem
 
 end Sk.Gen
+#print axioms Sk.Gen.bridge_apply_single
